@@ -5,6 +5,7 @@ import (
 	"reflect"
 	"unsafe"
 
+	"github.com/goccy/go-json/internal/errors"
 	"github.com/goccy/go-json/internal/runtime"
 )
 
@@ -41,10 +42,30 @@ func (d *wrappedStringDecoder) DecodeStream(s *Stream, depth int64, p unsafe.Poi
 	}
 	b := make([]byte, len(bytes)+1)
 	copy(b, bytes)
-	if _, err := d.dec.Decode(&RuntimeContext{Buf: b}, 0, depth, p); err != nil {
+	n, err := d.dec.Decode(&RuntimeContext{Buf: b}, 0, depth, p)
+	if err != nil {
+		return err
+	}
+	if err := d.validatePayload(bytes, n, s.totalOffset()); err != nil {
 		return err
 	}
 	return nil
+}
+
+// validatePayload: the quoted text must be exactly one literal of the wrapped
+// type ( no white space around it, nothing behind it ), as in encoding/json.
+func (d *wrappedStringDecoder) validatePayload(payload []byte, consumed, offset int64) error {
+	if len(payload) > 0 && consumed == int64(len(payload)) {
+		switch payload[0] {
+		case ' ', '\t', '\n', '\r':
+		default:
+			return nil
+		}
+	}
+	return errors.ErrSyntax(
+		fmt.Sprintf("json: invalid use of ,string struct tag, trying to unmarshal %q into %s", payload, d.typ),
+		offset,
+	)
 }
 
 func (d *wrappedStringDecoder) Decode(ctx *RuntimeContext, cursor, depth int64, p unsafe.Pointer) (int64, error) {
@@ -58,13 +79,18 @@ func (d *wrappedStringDecoder) Decode(ctx *RuntimeContext, cursor, depth int64, 
 		}
 		return c, nil
 	}
+	payloadLen := len(bytes)
 	bytes = append(bytes, nul)
 	oldBuf := ctx.Buf
 	ctx.Buf = bytes
-	if _, err := d.dec.Decode(ctx, 0, depth, p); err != nil {
+	n, err := d.dec.Decode(ctx, 0, depth, p)
+	ctx.Buf = oldBuf
+	if err != nil {
 		return 0, err
 	}
-	ctx.Buf = oldBuf
+	if err := d.validatePayload(bytes[:payloadLen], n, cursor); err != nil {
+		return 0, err
+	}
 	return c, nil
 }
 
